@@ -1,4 +1,4 @@
-CONSTANTS Fields = {"A","B","C"}  MaxRules = 2  Depths = {1,3}  Strategies = {"dfs","bfs"}  MaxSols = {1}  BodyKinds = {"one"}  MaxOps = 50
+CONSTANTS Fields = {"A","B","C"}  MaxRules = 2  Depths = {2}  Strategies = {"dfs","bfs"}  MaxSols = {1,3}  BodyKinds = {"one"}  MaxOps = 50
 CONSTANT Bads = {FALSE}
 CONSTANT InitProg <- P3
 INIT InitC11
